@@ -251,3 +251,53 @@ func MaurerUniversalTest(x []bool) (float64, float64) {
 	V := (sum/float64(K) - expected[L]) / sigma
 	return normalPQ(V)
 }
+
+// rank_alt1: the count of non-zero rows with the scan of a row stopped at its first non-zero entry
+// (a row is counted once in either form; the entries after the first non-zero one cannot change that).
+func rank_alt1(matrix [][]int, m int) int {
+	t := make([][]int, m)
+	for i := 0; i < m; i++ {
+		t[i] = make([]int, m)
+		for j := 0; j < m; j++ {
+			t[i][j] = matrix[i][j]
+		}
+	}
+	rowEchelon(t, m)
+	r := 0
+	for i := 0; i < m; i++ {
+		for j := 0; j < m; j++ {
+			if t[i][j] != 0 {
+				r++
+				break
+			}
+		}
+	}
+	return r
+}
+
+// rank_alt2: the private copy allocated row by row first and filled afterwards (the same t before elimination).
+func rank_alt2(matrix [][]int, m int) int {
+	t := make([][]int, m)
+	for i := 0; i < m; i++ {
+		t[i] = make([]int, m)
+	}
+	for i := 0; i < m; i++ {
+		for j := 0; j < m; j++ {
+			t[i][j] = matrix[i][j]
+		}
+	}
+	rowEchelon(t, m)
+	r := 0
+	for i := 0; i < m; i++ {
+		nz := false
+		for j := 0; j < m; j++ {
+			if t[i][j] != 0 {
+				nz = true
+			}
+		}
+		if nz {
+			r++
+		}
+	}
+	return r
+}
